@@ -610,13 +610,20 @@ class DAGRunConcurrentManager(DAGRunManagerLike):
 
             await self.__raise_exc(error)
 
-        return await self._run_dag(
+        result = await self._run_dag(
             dag=self._get_reduced_dag(
                 self.dag.input_node,
                 (self._node_storage.get_switch_result(node_id)).node_id,
                 is_oneof=dag.is_oneof,
             ),
         )
+
+        # The selected case may have been finished before the switch was resolved (the case can be shared
+        # with another consumer). Its descendants were notified when they could not be ready yet,
+        # so they have to be notified again.
+        await self.__unlock_descendants(node_id)
+
+        return result
 
     async def _run_node(
         self,
